@@ -74,7 +74,7 @@ class Unit:
                 hh = Harness(self, name, meta)
                 hh.native = lines[i].startswith('//@n')
                 if hh.native:
-                    hh.kind = 'bounded'
+                    hh.kind = 'canary' if meta.get('kind') == 'canary' else 'bounded'
                 self.harnesses.append(hh)
             i += 1
 
@@ -612,8 +612,14 @@ def main(argv):
             nres, ncmd, nout = run_native(repo, nhs, os.path.join(OUT_DIR, f'{prop}.{a.tier}.native.log'), a.tier)
             for h in nhs:
                 st = nres.get(h.name)
-                rec = {'id': h.id, 'engine': 'native', 'harness': h.fq, 'kind': 'bounded', 'bound': h.bound, 'text': h.text, 'cmd': ncmd}
-                if st == 'ok':
+                rec = {'id': h.id, 'engine': 'native', 'harness': h.fq, 'kind': h.kind, 'bound': h.bound, 'text': h.text, 'cmd': ncmd}
+                if h.kind == 'canary':
+                    if st == 'FAILED':
+                        rec['status'] = 'canary-ok'
+                    else:
+                        rec['status'] = 'undecided'
+                        undecided.append((h.id, 'CANARY-PASSED: a deliberately false native obligation did not fail'))
+                elif st == 'ok':
                     rec['status'] = 'discharged'
                 elif st == 'FAILED':
                     msg = native_failure_excerpt(nout, h.name)
